@@ -567,6 +567,12 @@ func (in *Interp) index(obj, key Value, line int, what expr) (Value, error) {
 	case string:
 		// string methods are not emitted
 		return nil, &LuaError{line, "string indexing is outside the supported subset"}
+	case float64:
+		// 64-bit reads are modelled as plain numbers; Wireshark's UInt64/Int64 objects offer :tonumber()
+		if key == "tonumber" {
+			return &Builtin{"tonumber", func(in *Interp, a []Value) ([]Value, error) { return []Value{o}, nil }}, nil
+		}
+		return nil, &LuaError{line, fmt.Sprintf("attempt to index a number value (%s)", describe(what))}
 	}
 	return nil, &LuaError{line, fmt.Sprintf("attempt to index a %s value (%s)", typeName(obj), describe(what))}
 }
